@@ -805,6 +805,52 @@ func init() {
 			return p
 		}})
 
+	// large payloads: containers whose inner packs total 70 KB .. 2.5 MB (beyond 16-bit lengths, the 64 KiB
+	// batch size and 1 MiB), compressed and uncompressed
+	bigInner := func(s *rfl.Stream) []pack.Pack {
+		total := []int{70000, 300000, 1200000, 2500000}[s.Intn(4)]
+		n := 1 + s.Intn(3)
+		var out []pack.Pack
+		for i := 0; i < n; i++ {
+			lp := ByName["LogSinkPack"].Build(s, 1).(*pack.LogSinkPack)
+			b := make([]byte, total/n)
+			seed := byte(s.Next())
+			for j := range b {
+				b[j] = seed + byte(j*31) + byte(j>>8)
+			}
+			lp.Content = string(b)
+			out = append(out, lp)
+		}
+		return out
+	}
+	add(&Spec{Name: "LogSinkZipPack/large", Code: pack.PACK_LOGSINK_ZIP, Registered: true, New: func() pack.Pack { return pack.NewLogSinkZipPack() },
+		Build: func(s *rfl.Stream, depth int) pack.Pack {
+			p := pack.NewLogSinkZipPack()
+			header(p, s)
+			inner := bigInner(s)
+			var raw []byte
+			for _, ip := range inner {
+				raw = append(raw, pack.ToBytesPack(ip)...)
+			}
+			p.RecordCount = len(inner)
+			zipMin := 100
+			if s.Intn(3) == 0 {
+				zipMin = len(raw) + 1 // stays uncompressed
+			}
+			p.SetRecords(raw, zipMin)
+			setAux(p, &AuxInfo{Inner: inner, Raw: raw, ZipMin: zipMin})
+			return p
+		}})
+	add(&Spec{Name: "ZipPack/large", Code: pack.PACK_ZIP, Registered: true, New: func() pack.Pack { return pack.NewZipPack() },
+		Build: func(s *rfl.Stream, depth int) pack.Pack {
+			p := pack.NewZipPack()
+			header(p, s)
+			inner := bigInner(s)
+			p.SetRecords(inner)
+			setAux(p, &AuxInfo{Inner: inner})
+			return p
+		}})
+
 	simple("ServerInfoPack", pack.PACK_SERVERINFO, true, func() pack.Pack { return pack.NewServerInfoPack() },
 		func(p pack.Pack, s *rfl.Stream, _ int) {
 			p.(*pack.ServerInfoPack).Attr = mapValue(s)
